@@ -29,6 +29,7 @@ type PreemptW struct {
 }
 
 type Spec struct {
+	Env []string `json:"env,omitempty"` // environment variables of the fresh worker process that runs this spec (RunFresh only): the process environment is not an input of a render
 	Fresh bool `json:"fresh,omitempty"` // run in a worker process that has executed nothing before (and nothing after): package-level state written only once per process is then written in THIS run
 	ID      string    `json:"id"`
 	Order   OrderPlan `json:"order"`
